@@ -405,7 +405,17 @@ func main() {
 	if !ok {
 		die("ReqClusterNodes not found")
 	}
-	fmt.Fprintf(&w, "def reqClusterNodes : List UInt8 := %s\n\n", leanBytes(rcn))
+	fmt.Fprintf(&w, "def reqClusterNodes : List UInt8 := %s\n", leanBytes(rcn))
+	ask, ok := ke.strs["ReqAsking"]
+	if !ok {
+		die("ReqAsking not found")
+	}
+	fmt.Fprintf(&w, "def reqAsking : List UInt8 := %s\n", leanBytes(ask))
+	mr, ok := ke.ints["MaxRedirects"]
+	if !ok {
+		die("MaxRedirects not found")
+	}
+	fmt.Fprintf(&w, "def maxRedirects : Nat := %d\n\n", mr)
 
 	// ---- codec/codec.go: status and error strings ----
 	of := parseFile(filepath.Join(repo, "core/codec/codec.go"))
@@ -413,7 +423,8 @@ func main() {
 	oe.loadConsts(of)
 	for _, n := range []string{"OK", "PONG", "ErrUnKnown", "ErrAddrNotFoundError", "ErrUnKnownCommand", "ErrUnKnownSlot",
 		"ErrUnKnownProxyPoolError", "ErrUnKnownProxyPoolConnError", "ErrUnKnownMget", "ErrMsgReqTooLarge", "ErrMsgRspTooLarge",
-		"ErrMsgReqWrongArgumentsNumber", "ErrMsgRequestTimeout", "ErrAuthInvalidPassword", "ErrAuthNeedNtPassword"} {
+		"ErrMsgReqWrongArgumentsNumber", "ErrMsgRequestTimeout", "ErrAuthInvalidPassword", "ErrAuthNeedNtPassword",
+		"ErrBackendClosed", "ErrTooManyRedirects"} {
 		s, ok := oe.strs[n]
 		if !ok {
 			die("codec constant %s not found", n)
